@@ -208,3 +208,13 @@ package stanza
 //@   loop 2:
 //@     invariant 0 <= $i && $i <= len($range) && idOf($range[:$i], sessionID)
 //@     decreases len($range) - $i
+//@ pred sessionOptional(sf) := sf.Session.XMLName.Local != "session" || sf.Session.Optional != nil
+//@ func stanza.NewIQ(a) (iq, err)
+//@   ensures [C03.newiq.iff] (err == nil) == !blank(a.Type)
+//@   ensures [C03.newiq.val] err == nil ==> iq != nil && fresh(iq) && iq.Type == a.Type && iq.From == a.From && iq.To == a.To
+//@   ensures [C03.newiq.empty] err == nil ==> iq.Payload == nil && iq.Error == nil
+//@   ensures [C03.newiq.id] (err == nil && a.Id != "") ==> iq.Id == a.Id
+//@   ensures err != nil ==> iq == nil
+//@ func (stanza.StanzaType).IsEmpty(s) (b)
+//@   ensures b == blank(s)
+//@ globalinv IqTypeUnset != nil
